@@ -909,3 +909,56 @@ pub fn pb_hash_map_roundtrip<const WHICH: u8>() {
 pub fn rs_stub() -> ahash::RandomState {
     ahash::RandomState::with_seeds(1, 2, 3, 4)
 }
+
+/// C18: map entries accumulate, a later entry with an EQUAL key replaces the earlier one.
+/// Two reference-encoded entries with the same (concrete 1-byte) key and symbolic fixed64 values,
+/// optionally a third entry with a different key in between.
+#[cfg(kani)]
+pub fn pb_btree_map_dup_key<const WITH_OTHER: bool>() {
+    use std::collections::BTreeMap;
+    let tag = 4u32;
+    let v1: [u8; 8] = kani::any();
+    let v2: [u8; 8] = kani::any();
+    let v3: [u8; 8] = kani::any();
+    let mut o = rp::Out::<48>::new();
+    // entry {5: v1}
+    o.put(0x22);
+    o.put(11);
+    o.put(0x08);
+    o.put(5);
+    o.put(0x11);
+    o.put_all(&v1);
+    if WITH_OTHER {
+        o.put(0x22);
+        o.put(11);
+        o.put(0x08);
+        o.put(6);
+        o.put(0x11);
+        o.put_all(&v3);
+    }
+    // entry {5: v2}
+    o.put(0x22);
+    o.put(11);
+    o.put(0x08);
+    o.put(5);
+    o.put(0x11);
+    o.put_all(&v2);
+    let mut out: BTreeMap<i32, u64> = BTreeMap::new();
+    let mut r: &[u8] = &o.b[..o.n];
+    let mut rounds = 0;
+    while !r.is_empty() && rounds < 3 {
+        let (t2, w2) = okd(enc::decode_key(&mut r));
+        kani::assert(t2 == tag && w2 == WireType::LengthDelimited, "C18: map entry key");
+        okd(enc::btree_map::merge(enc::int32::merge::<&[u8], i32>, enc::fixed64::merge, &mut out, &mut r, DecodeContext::default()));
+        rounds += 1;
+    }
+    kani::assert(r.is_empty(), "C18: all entries consumed");
+    kani::assert(out.get(&5) == Some(&u64::from_le_bytes(v2)), "C18: a later map entry with an equal key replaces the earlier one");
+    if WITH_OTHER {
+        kani::assert(out.len() == 2 && out.get(&6) == Some(&u64::from_le_bytes(v3)), "C18: map entries with different keys accumulate");
+    } else {
+        kani::assert(out.len() == 1, "C18: equal keys do not create two entries");
+    }
+    kani::cover!(true, "reached end");
+    core::mem::forget(out);
+}
